@@ -133,35 +133,37 @@ theorem got_getD_toRunning (c : Co) (now : Nat) : ((c.toRunning now).getD c).got
 /-- the body only moves between Running and Syscall and keeps the log well-formed -/
 theorem runBody_wf (th : Th) (c : Co) (steps : List Step) (hw : Wf c) (ha : Active c) :
     Wf (runBody th c steps).2.1 ∧ Active (runBody th c steps).2.1 := by
-  induction steps generalizing c with
+  induction steps generalizing c th with
   | nil => exact ⟨hw, ha⟩
   | cons st rest ih =>
     cases st with
     | susp y => exact ⟨hw, ha⟩
     | delay y d => exact ⟨hw, ha⟩
     | until_ y t => exact ⟨hw, ha⟩
-    | enter => exact ih _ (wf_withLog _ (wf_getD_toSyscall _ _ hw)) (active_withLog _ (active_getD_toSyscall _ _ ha))
-    | setSys s => exact ih _ (wf_withLog _ (wf_getD_toSyscall _ _ hw)) (active_withLog _ (active_getD_toSyscall _ _ ha))
-    | wrongSys => exact ih _ (wf_withLog _ (wf_getD_toSyscall _ _ hw)) (active_withLog _ (active_getD_toSyscall _ _ ha))
-    | exit => exact ih _ (wf_withLog _ (wf_getD_toRunning _ hw)) (active_withLog _ (active_getD_toRunning _ ha))
+    | enter => exact ih _ _ (wf_withLog _ (wf_getD_toSyscall _ _ hw)) (active_withLog _ (active_getD_toSyscall _ _ ha))
+    | setSys s => exact ih _ _ (wf_withLog _ (wf_getD_toSyscall _ _ hw)) (active_withLog _ (active_getD_toSyscall _ _ ha))
+    | wrongSys => exact ih _ _ (wf_withLog _ (wf_getD_toSyscall _ _ hw)) (active_withLog _ (active_getD_toSyscall _ _ ha))
+    | exit => exact ih _ _ (wf_withLog _ (wf_getD_toRunning _ hw)) (active_withLog _ (active_getD_toRunning _ ha))
     | cancel => exact ⟨hw, ha⟩
+    | req j => exact ih _ _ hw ha
     | panic k => exact ⟨hw, ha⟩
     | ret r => exact ⟨hw, ha⟩
 
 theorem runBody_active (th : Th) (c : Co) (steps : List Step) (ha : Active c) : Active (runBody th c steps).2.1 := by
-  induction steps generalizing c with
+  induction steps generalizing c th with
   | nil => exact ha
   | cons st rest ih =>
     cases st with
-    | enter => exact ih _ (active_withLog _ (active_getD_toSyscall _ _ ha))
-    | setSys s => exact ih _ (active_withLog _ (active_getD_toSyscall _ _ ha))
-    | wrongSys => exact ih _ (active_withLog _ (active_getD_toSyscall _ _ ha))
-    | exit => exact ih _ (active_withLog _ (active_getD_toRunning _ ha))
+    | enter => exact ih _ _ (active_withLog _ (active_getD_toSyscall _ _ ha))
+    | setSys s => exact ih _ _ (active_withLog _ (active_getD_toSyscall _ _ ha))
+    | wrongSys => exact ih _ _ (active_withLog _ (active_getD_toSyscall _ _ ha))
+    | exit => exact ih _ _ (active_withLog _ (active_getD_toRunning _ ha))
+    | req j => exact ih _ _ ha
     | _ => exact ha
 
 /-- the body itself never touches the values it received -/
 theorem runBody_got (th : Th) (c : Co) (steps : List Step) : (runBody th c steps).2.1.got = c.got := by
-  induction steps generalizing c with
+  induction steps generalizing c th with
   | nil => rfl
   | cons st rest ih =>
     cases st with
@@ -169,6 +171,7 @@ theorem runBody_got (th : Th) (c : Co) (steps : List Step) : (runBody th c steps
     | setSys s => simp only [runBody]; rw [ih]; exact got_getD_toSyscall _ _ _
     | wrongSys => simp only [runBody]; rw [ih]; exact got_getD_toSyscall _ _ _
     | exit => simp only [runBody]; rw [ih]; exact got_getD_toRunning _ _
+    | req j => simp only [runBody]; rw [ih]
     | _ => rfl
 
 /-- what a slice of body execution may leave on the request stacks: nothing, or exactly the one
@@ -178,20 +181,32 @@ inductive Pushed (th th' : Th) : End → Prop
   | time (y t : Nat) (h1 : th'.ts = t :: th.ts) (h2 : th'.cn = th.cn) : Pushed th th' (.yielded y)
   | cancel (h1 : th'.ts = th.ts) (h2 : th'.cn = true :: th.cn) : Pushed th th' (.yielded 0)
 
+theorem Pushed.of_eq {th1 th th' : Th} {e : End} (h1 : th1.ts = th.ts) (h2 : th1.cn = th.cn)
+    (hp : Pushed th1 th' e) : Pushed th th' e := by
+  cases hp with
+  | none e a b => exact .none _ (a.trans h1) (b.trans h2)
+  | time y t a b => exact .time y t (by rw [a, h1]) (b.trans h2)
+  | cancel a b => exact .cancel (a.trans h1) (by rw [b, h2])
+
 theorem runBody_pushed (th : Th) (c : Co) (steps : List Step) :
     Pushed th (runBody th c steps).1 (runBody th c steps).2.2 ∧ (runBody th c steps).1.now = th.now := by
-  induction steps generalizing c with
+  induction steps generalizing c th with
   | nil => exact ⟨.none _ rfl rfl, rfl⟩
   | cons st rest ih =>
     cases st with
     | susp y => exact ⟨.none _ rfl rfl, rfl⟩
     | delay y d => exact ⟨.time y _ rfl rfl, rfl⟩
     | until_ y t => exact ⟨.time y t rfl rfl, rfl⟩
-    | enter => exact ih _
-    | setSys s => exact ih _
-    | wrongSys => exact ih _
-    | exit => exact ih _
+    | enter => exact ih _ _
+    | setSys s => exact ih _ _
+    | wrongSys => exact ih _ _
+    | exit => exact ih _ _
     | cancel => exact ⟨.cancel rfl rfl, rfl⟩
+    | req j =>
+      obtain ⟨hp, hn⟩ := ih { th with req := th.req ++ [j] } c
+      refine ⟨?_, hn⟩
+      simp only [runBody]
+      exact Pushed.of_eq (th1 := { th with req := th.req ++ [j] }) rfl rfl hp
     | panic k => exact ⟨.none _ rfl rfl, rfl⟩
     | ret r => exact ⟨.none _ rfl rfl, rfl⟩
 
